@@ -302,9 +302,44 @@ def _nan(x):
     return float('nan') if x is None else x
 
 
+_SHARED = [None]     # a dict while a case with spec['share_index'] is being built: equal position lists -> ONE pd.Index object
+
+
 def _mk_index(pos):
     import pandas as pd
+    if _SHARED[0] is not None:
+        key = tuple(pos)
+        if key not in _SHARED[0]:
+            _SHARED[0][key] = pd.DatetimeIndex([AXIS[p] for p in pos])
+        return _SHARED[0][key]
     return pd.DatetimeIndex([AXIS[p] for p in pos])
+
+
+def _build_case(spec):
+    """builds spec['tree']; with spec['share_index'] timeseries whose stamps are equal share one index object (as columns cut out
+    of one frame, or series built on one calendar, do)"""
+    _SHARED[0] = {} if spec.get('share_index') else None
+    try:
+        return _build(spec['tree'])
+    finally:
+        _SHARED[0] = None
+
+
+def _share_classes(spec, leaves):
+    idxs = [tuple(l[1]) for l in leaves]
+    if not spec.get('share_index') or len(set(idxs)) == len(idxs):
+        return []
+    cls = ['shared_index_object']
+    for i in range(len(idxs)):
+        for j in range(i + 2, len(idxs)):
+            if idxs[i] == idxs[j] and any(idxs[k] != idxs[i] for k in range(i + 1, j)):
+                if 'shared_index_object_around_another_index' not in cls:
+                    cls.append('shared_index_object_around_another_index')
+                if j == len(idxs) - 1 and 'last_series_shares_index_object_with_earlier' not in cls:
+                    cls.append('last_series_shares_index_object_with_earlier')
+                    if _jkind(spec['join']) == 'r':
+                        cls.append('right_join_on_a_shared_index_object')
+    return cls
 
 
 def _build(node):
@@ -560,6 +595,7 @@ def _classes(spec, leaves, target, ctx):
         cls.append('as_of_filled_cell')
     if 'same_span_same_length_different_interior' in cls and _jkind(spec['join']) in ('i', 'o'):
         cls.append('twins_under_ij_oj')
+    cls += _share_classes(spec, leaves)
     nt = len(idxs) >= 2 and (partial or disjoint) or bool(ctx is not None and ctx.filled)
     return dict(nt=bool(nt), cls=cls)
 
@@ -569,7 +605,7 @@ def _classes(spec, leaves, target, ctx):
 def run_sync(spec):
     from pyg_base import df_sync, df_reindex, df_index
     tree, join, method, fn = spec['tree'], spec['join'], spec['method'], spec['call']
-    objs = _build(tree)
+    objs = _build_case(spec)
     jarg = _build_join(join)
     leaves = _ts_leaves(tree)
     target = _exp_index(join, [l[1] for l in leaves])
@@ -599,6 +635,30 @@ def _passthrough(p0=None, p1=None, p2=None, p3=None):
     return [p0, p1, p2, p3]
 
 
+def _shaped(sig, sink=None):
+    """the decorated function in one of four signature shapes; it reports what it received as [p0, p1, p2, p3]
+    (to `sink` when given, for the per-column mode, else as its result)"""
+    def out(vals):
+        vals = (list(vals) + [None] * 4)[:4]
+        if sink is None:
+            return vals
+        sink.append(vals)
+        return 0.0
+    if sig == 'varargs':
+        def f(p0=None, *rest):
+            return out([p0] + list(rest))
+    elif sig == 'varkw':
+        def f(p0=None, **kw):
+            return out([p0] + [kw.get('p%i' % i) for i in (1, 2, 3)])
+    elif sig == 'var_both':
+        def f(*a, **kw):
+            return out(list(a) + [kw.get('p%i' % i) for i in range(len(a), 4)])
+    else:
+        def f(p0=None, p1=None, p2=None, p3=None):
+            return out([p0, p1, p2, p3])
+    return f
+
+
 def _decorate(spec, f):
     """presync(f) configured as the spec says; returns (callable, extra call-time keywords)"""
     from pyg_base import presync
@@ -619,7 +679,7 @@ def _decorate(spec, f):
 def run_presync(spec):
     tree, join, method = spec['tree'], spec['join'], spec['method']
     kids = tree[1]
-    objs = _build(tree)
+    objs = _build_case(spec)
     npos = spec['npos']
     args = tuple(objs[:npos])
     kwargs = {'p%i' % i: objs[i] for i in range(npos, len(objs))}
@@ -627,7 +687,9 @@ def run_presync(spec):
     target = _exp_index(join, [l[1] for l in leaves], kids)
     what = 'presync(f, %s)(%i positional, %s)  [join=%s method=%s columns=%s tree=%s]' % (
         spec['how'], npos, sorted(kwargs), join, method, spec['columns'], _sketch(tree))
-    g, extra = _decorate(spec, _passthrough)
+    sig = spec.get('sig', 'named')
+    what = what.replace('presync(f,', 'presync(%s,' % {'named': 'f', 'varargs': 'f(p0, *rest)', 'varkw': 'f(p0, **kw)', 'var_both': 'f(*a, **kw)'}[sig], 1)
+    g, extra = _decorate(spec, _shaped(sig))
     kw = dict(kwargs)
     kw.update(extra)
     res = call(what, g, *args, **kw)
@@ -640,7 +702,11 @@ def run_presync(spec):
     _verify_inputs(tree, objs, what)
     info = _classes(spec, leaves, target, ctx)
     info['cls'] += ['how=' + spec['how'], 'mode=%s' % ('raw' if spec['columns'] is False else 'cols'),
-                    'npos=%i/%i' % (npos, len(kids)) if npos in (0, len(kids)) else 'mixed_positional_keyword']
+                    'npos=%i/%i' % (npos, len(kids)) if npos in (0, len(kids)) else 'mixed_positional_keyword', 'sig=' + sig]
+    if sig in ('varargs', 'var_both') and npos >= 2 and any(l for c in kids[1:npos] for l in _ts_leaves(c)):
+        info['cls'].append('timeseries_through_*args')
+    if sig in ('varkw', 'var_both') and any(l for c in kids[max(npos, 1):] for l in _ts_leaves(c)):
+        info['cls'].append('timeseries_through_**kwargs')
     return info
 
 
@@ -649,7 +715,7 @@ def run_presync_cols(spec):
     import pandas as pd
     tree, join, method, columns = spec['tree'], spec['join'], spec['method'], spec['columns']
     kids = tree[1]
-    objs = _build(tree)
+    objs = _build_case(spec)
     npos = spec['npos']
     args = tuple(objs[:npos])
     kwargs = {'p%i' % i: objs[i] for i in range(npos, len(objs))}
@@ -658,11 +724,9 @@ def run_presync_cols(spec):
     what = 'presync(f, %s)(%i positional, %s)  [join=%s method=%s columns=%s tree=%s]' % (
         spec['how'], npos, sorted(kwargs), join, method, columns, _sketch(tree))
     calls = []
-
-    def f(p0=None, p1=None, p2=None, p3=None):
-        calls.append([p0, p1, p2, p3])
-        return 0.0
-    g, extra = _decorate(spec, f)
+    sig = spec.get('sig', 'named')
+    what = what.replace('presync(f,', 'presync(%s,' % {'named': 'f', 'varargs': 'f(p0, *rest)', 'varkw': 'f(p0, **kw)', 'var_both': 'f(*a, **kw)'}[sig], 1)
+    g, extra = _decorate(spec, _shaped(sig, calls))
     kw = dict(kwargs)
     kw.update(extra)
     call(what, g, *args, **kw)
@@ -736,7 +800,7 @@ def run_presync_cols(spec):
     _verify_inputs(tree, objs, what)
     ctx.what = what
     info = _classes(spec, leaves, target, ctx)
-    info['cls'] += ['how=' + spec['how'], 'ncalls=%i' % min(len(calls), 3)]
+    info['cls'] += ['how=' + spec['how'], 'ncalls=%i' % min(len(calls), 3), 'sig=' + sig]
     if multi and len(set(tuple(c) for c in multi)) == 1:
         info['cls'].append('all_frames_same_columns')
     if expcols == []:
@@ -813,7 +877,7 @@ def _cmp_arrs(node, orig, res, n, method, what, path='result'):
 def run_arrays(spec):
     from pyg_base import df_sync, df_reindex, df_index, presync
     tree, join, method, fn = spec['tree'], spec['join'], spec['method'], spec['call']
-    objs = _build(tree)
+    objs = _build_case(spec)
     leaves = _arr_leaves(tree)
     lens = [l[2][0] for l in leaves]
     n = _arr_n(join, lens)
@@ -944,6 +1008,8 @@ def _free_idx(draw):
 def _idx(draw, state):
     """state['family'] = None: free indices, now and then derived from an earlier one; else EVERY index of the case is derived from the first"""
     prev, fam = state['prev'], state.get('family')
+    if len(prev) >= 2 and draw(st.integers(0, 2)) == 0:
+        return list(prev[draw(st.integers(0, len(prev) - 2))])      # the stamps of an earlier series that is not the previous one
     if fam is not None:
         if not prev:
             # a base with at least 3 stamps and room between its endpoints, so that every family kind is feasible
@@ -1052,6 +1118,14 @@ def _join(draw, explicit=True):
 _ALL = ['s', 's', 's', 'f', 'f', 'f1']
 
 
+def _right_when_last_shares(draw, tree, join):
+    """a tree whose LAST timeseries has the stamps of an earlier, non-adjacent one: half of these cases are aligned on 'the last index'"""
+    idxs = [tuple(l[1]) for l in _ts_leaves(tree)]
+    if len(idxs) >= 3 and idxs[-1] in idxs[:-2] and any(i != idxs[-1] for i in idxs) and draw(st.booleans()):
+        return _SPELL['r'][draw(st.booleans())]
+    return join
+
+
 def _target_like_first(draw, state, tree, join):
     """in a family case half of the explicit targets share the family fingerprint with the first timeseries (same length and endpoints, nested, ...)"""
     leaves = _ts_leaves(tree)
@@ -1068,8 +1142,8 @@ def _sync_case(draw):
     state = dict(k=0, prev=[], family=draw(_family))
     types = ['list', 'list', 'dict', 'dict', 'Dict'] + (['tuple'] if fn == 'df_sync' else [])
     tree = draw(_container(state, 1, 3, _ALL, _ts_leaf, types, 1, 4))
-    join = _target_like_first(draw, state, tree, join)
-    spec = dict(call=fn, tree=tree, join=join, method=method)
+    join = _right_when_last_shares(draw, tree, _target_like_first(draw, state, tree, join))
+    spec = dict(call=fn, tree=tree, join=join, method=method, share_index=draw(st.booleans()))
     if fn == 'df_sync':
         spec['columns'] = draw(st.sampled_from(['ij', 'ij', 'inner', 'oj', 'outer', 'lj', 'rj', None, False]))
     return _repair(spec)
@@ -1105,12 +1179,20 @@ def _presync_case(draw, frames_in_col_mode=False):
         columns = False if raw else draw(st.sampled_from(['inner', 'ij', 'oj']))
     tree = draw(_container(state, 1, 3, kinds, _ts_leaf, ['list'], 1, 4))
     kids = tree[1]
-    join = _target_like_first(draw, state, tree, join)
+    join = _right_when_last_shares(draw, tree, _target_like_first(draw, state, tree, join))
     single = [i for i, c in enumerate(kids) if c[0] in ('s', 'f')]
     if how != 'prop' and single and draw(st.integers(0, 5)) == 0:
         join = ['arg', single[draw(st.integers(0, len(single) - 1))]]
-    spec = dict(call='presync', tree=tree, join=join, method=method, columns=columns, how=how,
-                npos=draw(st.integers(0, len(kids))))
+    npos = draw(st.integers(0, len(kids)))
+    # the shape of the decorated function: named parameters, or *args / **kwargs collecting some of the arguments
+    sig = draw(st.sampled_from(['named', 'named', 'named', 'varargs', 'varkw', 'var_both']))
+    if join[0] == 'arg' and not (sig in ('varargs', 'varkw') and join[1] == 0):
+        sig = 'named'                      # index='p<i>' names a declared parameter
+    if sig == 'varargs':
+        npos = len(kids)                   # everything after p0 can only arrive positionally
+    elif sig == 'varkw':
+        npos = min(npos, 1)                # everything after p0 can only arrive by keyword
+    spec = dict(call='presync', tree=tree, join=join, method=method, columns=columns, how=how, npos=npos, sig=sig, share_index=draw(st.booleans()))
     return _repair(spec)
 
 
@@ -1149,7 +1231,7 @@ def _arrays_case(draw, maxlen=6):
 
 _RULE_TS = ('timeseries = float Series (NaN sprinkled / none / all NaN), int Series, frames with 2-3 columns out of a,b,c,d (NaN by row, by cell, none) and '
             'single-column frames, each on a sorted subset (contiguous run, arbitrary subset, empty, or derived from an earlier index) of a 12-stamp irregular axis; in ~60% of the cases EVERY index derives from the first one by one fast-path fingerprint (twin = same length, same first/last stamp, different interior; same length; same endpoints; same first/last k stamps; proper subset / superset; copy), and explicit targets share it half of the time; '
-            'cell values unique per object/column/stamp; ')
+            'cell values unique per object/column/stamp; in half of the cases timeseries with equal stamps share ONE index object (a third of the later series repeat the stamps of an earlier, non-adjacent one; half of the trees whose last series does so are aligned with a right join); ')
 
 SUBS = [
     Sub('sync', lambda tier: _sync_case(), run_sync, quick=1600, thorough=12000,
@@ -1158,7 +1240,7 @@ SUBS = [
              'columns ij/oj/lj/rj/None/False. Oracle: dictionary model per cell, index as ordered list, column set, container types/keys, identity of '
              'non-timeseries members, inputs unchanged. non-trivial = two timeseries with partially overlapping or disjoint indices, or a cell actually '
              'filled from another stamp',
-        floor=0.3, class_floors={'depth>=2': 0.15, 'empty_intersection': 0.005, 'empty_series': 0.05, 'frames_differing_columns': 0.03,
+        floor=0.3, class_floors={'shared_index_object_around_another_index': 0.02, 'right_join_on_a_shared_index_object': 0.004, 'depth>=2': 0.15, 'empty_intersection': 0.005, 'empty_series': 0.05, 'frames_differing_columns': 0.03,
                                  'as_of_filled_cell': 0.1, 'join=l': 0.04, 'join=r': 0.04, 'join=idx': 0.05, 'join=series': 0.05, 'join=i': 0.04, 'join=o': 0.04,
                                  'same_span_same_length_different_interior': 0.04, 'twins_under_ij_oj': 0.01, 'same_length_different_stamps': 0.04,
                                  'same_endpoints_different_length': 0.03, 'nested_chain': 0.03, 'same_first_two_stamps': 0.03, 'same_last_two_stamps': 0.02,
@@ -1170,16 +1252,16 @@ SUBS = [
                                   'vs_target:same_span_same_length_different_interior': 0.05, 'vs_target:nested_chain': 0.1,
                                   'vs_target:same_length_different_stamps': 0.05, 'vs_target:same_endpoints_different_length': 0.03}),
     Sub('presync', lambda tier: _presync_case(), run_presync, quick=1200, thorough=8000,
-        rule=_RULE_TS + 'f(p0..p3) returns its arguments; 1-4 arguments (each a leaf or a tree to depth 2) passed positionally / by keyword / mixed; '
+        rule=_RULE_TS + 'f returns its arguments; f is declared as f(p0..p3), f(p0, *rest), f(p0, **kw) or f(*a, **kw); 1-4 arguments (each a leaf or a tree to depth 2) passed positionally / by keyword / mixed; '
              'presync configured by constructor, by properties (.oj.ffill), by call-time join=/method=, or index="p<i>"; columns=False with any tree, '
              'default column mode with Series-only trees. Same oracle on what f receives. non-trivial as in sync',
-        floor=0.3, class_floors={'mixed_positional_keyword': 0.1, 'mode=raw': 0.2, 'mode=cols': 0.2, 'how=prop': 0.1, 'how=call': 0.1, 'join=arg': 0.02,
+        floor=0.3, class_floors={'shared_index_object_around_another_index': 0.02, 'right_join_on_a_shared_index_object': 0.004, 'timeseries_through_*args': 0.05, 'timeseries_through_**kwargs': 0.05, 'mixed_positional_keyword': 0.1, 'mode=raw': 0.2, 'mode=cols': 0.2, 'how=prop': 0.1, 'how=call': 0.1, 'join=arg': 0.02,
                                   'same_span_same_length_different_interior': 0.02, 'twins_under_ij_oj': 0.005, 'same_length_different_stamps': 0.04, 'nested_chain': 0.03}),
     Sub('presync_cols', lambda tier: _presync_case(True), run_presync_cols, quick=1000, thorough=6000,
         rule=_RULE_TS + 'default column mode with frames among the arguments: f records every call; expected one call per common column (the shared columns '
              'when all multi-column frames agree, else the ij/oj/lj/rj column set), each call seeing every multi-column frame as that column (Series on the '
              'common index, as-of filled) or NaN when the frame lacks it, single-column frames as their column, Series aligned, the rest identical',
-        floor=0.3, class_floors={'frames_differing_columns': 0.1, 'all_frames_same_columns': 0.1,
+        floor=0.3, class_floors={'sig=varargs': 0.05, 'sig=varkw': 0.05, 'sig=var_both': 0.05, 'frames_differing_columns': 0.1, 'all_frames_same_columns': 0.1,
                                   'same_span_same_length_different_interior': 0.04, 'twins_under_ij_oj': 0.01, 'same_length_different_stamps': 0.04, 'nested_chain': 0.03}),
     Sub('arrays', lambda tier: _arrays_case(6 if tier == 'quick' else 9), run_arrays, quick=2000, thorough=12000,
         rule='trees (depth <= 3) of bare numpy arrays: 1-d and 2-d (1-3 columns), 0-6 rows (0-9 thorough), float64 with NaN / int64, mixed with scalars; '
